@@ -57,7 +57,23 @@ type Node struct {
 	// reads. It becomes part of the own text of the nearest enclosing element (<template> loops
 	// add no element), so a loop body can consist of text alone.
 	Text *Probe `json:"text,omitempty"`
+	// Inc is a component call <template include="comp.vuego" n1="s1" …></template>: its props live
+	// in a scope of their own that is opened and closed again; none of them is visible afterwards.
+	Inc *Inc `json:"inc,omitempty"`
 }
+
+// Inc is an include with static props (comp.vuego prints a fixed marked element).
+type Inc struct {
+	Props []Prop `json:"props"`
+}
+
+// Prop is one static prop.
+type Prop struct {
+	N string `json:"n"`
+	S string `json:"s"`
+}
+
+const compFile = `<i data-m="cmp">c</i>`
 
 // Loop is one v-for element.
 type Loop struct {
@@ -69,6 +85,7 @@ type Loop struct {
 	If      *Cond  `json:"if,omitempty"`
 	IfFirst bool   `json:"if_first,omitempty"` // v-if attribute written before v-for
 	Bind    string `json:"bind,omitempty"`     // :data-x="<path>" on the looped element
+	BindAs  string `json:"bind_as,omitempty"`  // attribute name instead of data-x (e.g. the loop variable's own name: :value="value")
 	// Fill puts v-html / v-text on the looped element itself (its content is then the value
 	// of the path; Body is not rendered). Not on <template>.
 	Fill *Fill  `json:"fill,omitempty"`
@@ -103,7 +120,8 @@ type Probe struct {
 }
 
 // Read is one variable read. Pos: "text" {{ path }}, "tern" {{ cond ? 'Y' : 'N' }},
-// "vif" <b data-m=ID.k v-if="cond">, "attr" <u data-m=ID.k :data-x="path">. Constructs that the
+// "vif" <b data-m=ID.k v-if="cond">, "attr" <u data-m=ID.k :data-x="path">, "nattr" <u data-m=ID.k
+// :NAME="path"> where NAME is the variable's own name (:value="value"). Constructs that the
 // engine evaluates by rewriting or specially treating the node (each instance must still show
 // ITS item): "thtml" <s data-m=ID.k><template v-html="path"></template></s>, "vhtml" / "vtext"
 // <s data-m=ID.k v-html|v-text="path">, "vshow" <b v-show="cond">, "class" <b :class="{hit: cond}">,
@@ -212,11 +230,11 @@ func render(c Case, tpl string) (string, error) {
 	var err error
 	switch c.API {
 	case "", "string":
-		err = vuego.New().Fill(data).RenderString(context.Background(), &buf, tpl)
+		err = vuego.New(vuego.WithFS(memfs.FromMap(map[string]string{"comp.vuego": compFile}))).Fill(data).RenderString(context.Background(), &buf, tpl)
 	case "fragment":
-		err = vuego.NewVue(memfs.FromMap(map[string]string{"page.vuego": tpl})).RenderFragment(&buf, "page.vuego", data)
+		err = vuego.NewVue(memfs.FromMap(map[string]string{"page.vuego": tpl, "comp.vuego": compFile})).RenderFragment(&buf, "page.vuego", data)
 	case "load":
-		err = vuego.NewFS(memfs.FromMap(map[string]string{"page.vuego": tpl})).Load("page.vuego").Fill(data).Render(context.Background(), &buf)
+		err = vuego.NewFS(memfs.FromMap(map[string]string{"page.vuego": tpl, "comp.vuego": compFile})).Load("page.vuego").Fill(data).Render(context.Background(), &buf)
 	default:
 		return "", fmt.Errorf("unknown api %q", c.API)
 	}
@@ -240,7 +258,40 @@ func outline(l []*xm) string {
 	return sb.String()
 }
 
+func hasInc(ns []Node) bool {
+	for _, n := range ns {
+		switch {
+		case n.Inc != nil:
+			return true
+		case n.Loop != nil:
+			if hasInc(n.Loop.Body) || (n.Loop.Else != nil && hasInc(n.Loop.Else.Body)) {
+				return true
+			}
+		}
+	}
+	return false
+}
+
+// check renders a case with component calls twice in a row on this goroutine (fresh engine
+// each time): what a closed component scope leaves behind must not reach a later loop instance,
+// neither in the same render nor in the next one.
 func check(c Case) error {
+	reps := 1
+	if hasInc(c.Prog) {
+		reps = 2
+	}
+	for r := 1; r <= reps; r++ {
+		if err := checkOnce(c); err != nil {
+			if reps > 1 {
+				return fmt.Errorf("render %d of %d: %w", r, reps, err)
+			}
+			return err
+		}
+	}
+	return nil
+}
+
+func checkOnce(c Case) error {
 	tpl := buildTemplate(c)
 	if c.Tpl != "" && c.Tpl != tpl {
 		return fmt.Errorf("case is inconsistent: its tpl text is not the text derived from prog:\n have %s\n want %s", c.Tpl, tpl)
